@@ -39,10 +39,10 @@ def check_property(pid, tier="quick", seed=0, write_baseline=False):
     lines = []
     verdict = dict(violations=[], undecided=[], errors=[], known=[], degraded=[])
     fns = sorted(q for q, c in reg.contracts.items() if pid in c.props)
-    missing = [q for q in fns if q not in repo.functions]
+    missing = [q for q in fns if q.split("#")[0] not in repo.functions]
     for q in missing:
         verdict["undecided"].append(f"binding failure: {q} not found in the source tree")
-    fns = [q for q in fns if q in repo.functions]
+    fns = [q for q in fns if q.split("#")[0] in repo.functions]
     res = run_tasks(task_verify, [(q, None, timeout_ms) for q in fns], cache, [f"verify:{q}:inv:{timeout_ms}" for q in fns])
     baseline = load_baseline()
     total = discharged = 0
